@@ -1048,6 +1048,31 @@ def run_cas_scenario(seed):
                                                        f"(got {None if got is None else len(got)} bytes)"))
                 seen[f["hash"]] = b
             pump()
+        # the same through Transfer-Encoding: chunked (what the xs client always sends): any chunking of the body, and the
+        # empty body as a lone terminating chunk - still "no body", hence no hash
+        for b in bodies:
+            cuts = sorted({r.randrange(0, len(b) + 1) for _ in range(r.choice([0, 1, 3]))}) if b else []
+            chunks = [b[i:j] for i, j in zip([0] + cuts, cuts + [len(b)])]
+            st, hd, out = cl.request(H.render_chunked("POST", "/blobc", chunks))
+            rep["writes"] += 1
+            if st != 200:
+                rep["violations"].append(dict(what=f"chunked POST /blobc of {len(b)} bytes in {len(chunks)} chunks answered {st}"))
+                continue
+            f = json.loads(out)
+            if not b:
+                if f.get("hash") is not None:
+                    rep["violations"].append(dict(what=f"a chunked append with an empty body (lone terminating chunk) produced a frame with hash {f.get('hash')}"))
+            else:
+                got = cl.cas(f["hash"]) if f.get("hash") else None; rep["reads"] += 1
+                if f.get("hash") != integ(b) or got != b:
+                    rep["violations"].append(dict(what=f"chunked append of {len(b)} bytes in chunks {[len(c) for c in chunks]} reported hash {f.get('hash')}, "
+                                                       f"the bytes hash to {integ(b)}; read back {None if got is None else len(got)} bytes"))
+            st, hd, out = cl.request(H.render_chunked("POST", "/cas", chunks))
+            if b and (st != 200 or out.decode() != integ(b)):
+                rep["violations"].append(dict(what=f"chunked POST /cas of {len(b)} bytes answered {st} {out[:80]!r}, expected {integ(b)}"))
+            if not b and st != 400:
+                rep["violations"].append(dict(what=f"chunked POST /cas with an empty body answered {st}"))
+        pump()
         # nu entry points: a handler's buffered .append + return value, a command's output
         hid = cl.append("h.register", body=('{ run: {|frame| if $frame.topic != "go" { return }; "from-append" | .append note; "ret-val" } }').encode())
         cl.wait_topic("h.registered", after=hid or 0)
